@@ -411,6 +411,31 @@ func (in *Interp) defaultOp(p *Plan, src reflect.Value, dt reflect.Type) (reflec
 			panic(&ModelPanic{Msg: "constructor returned nil pointer"})
 		}
 		return base, in.structInto(p.In, src, base.Elem())
+	case "ptr-replace", "val2ptr-replace", "srcptr-replace":
+		// a custom conversion of the struct pair: its result replaces the constructor's value
+		b := base
+		if p.Ref == "srcptr-replace" {
+			b = addressable(base)
+		}
+		if src.Kind() == reflect.Ptr {
+			if src.IsNil() {
+				return b, nil
+			}
+			src = src.Elem()
+		}
+		dst := b
+		if dst.Kind() == reflect.Ptr {
+			if dst.IsNil() {
+				panic(&ModelPanic{Msg: "constructor returned nil pointer"})
+			}
+			dst = dst.Elem()
+		}
+		v, err := in.Eval(p.In, src, dst.Type())
+		if err != nil {
+			return reflect.Zero(dt), err
+		}
+		dst.Set(v)
+		return b, nil
 	case "struct":
 		b := addressable(base)
 		return b, in.structInto(p.In, src, b)
